@@ -1040,4 +1040,99 @@ theorem draft_kwFacts (d : Draft) (fc : Option FormatChecker) : KwFacts (d.cfg f
     show d.idKey ≠ skey "if"
     cases d <;> decide +kernel
 
+/-! ### the union theorem, one layer -/
+
+theorem if_not_consulted : skey "if" ∉ Spec.consulted := by decide +kernel
+
+/-- a kept sibling other than the keyword itself contributes nothing attributed to the keyword -/
+theorem sibling_not_attr (env : Env) (impl : FmtImpl) {cfg : Cfg} (F : KwFacts cfg) (rec : Rec)
+    (inst schema : Json) (k : Str) (kv' : Str × Json) (hne : (kv'.1 == k) = false)
+    (hkeep : Spec.consulted.contains kv'.1 = true ∨ kv'.1 = cfg.idKey) (hnref : kv'.1 ≠ skey "$ref")
+    (b : Option Nat) (st : RState) :
+    (runKeyword env impl cfg rec inst schema kv' b st).errs.filter (attrTo k) = [] := by
+  rw [List.filter_eq_nil_iff]
+  intro e he
+  cases hl : lookupS kv'.1 cfg.keywords with
+  | none => rw [runKeyword_none _ _ _ _ _ _ _ hl] at he; cases he
+  | some f =>
+    have hnif : kv'.1 ≠ skey "if" := by
+      intro hi
+      rcases hkeep with h | h
+      · rw [hi] at h; exact if_not_consulted (List.contains_iff_mem.mp h)
+      · exact F.idNotIf (h.symm.trans hi)
+    have hh := runKeyword_heads env impl cfg rec inst schema kv'
+      (by rintro (h | h); exact hnif h; exact hnref h) b st e he
+    unfold attrTo
+    rw [hh]
+    dsimp only
+    have hthen : (kv'.1 == skey "then") = false := by
+      rw [beq_eq_false_iff_ne]
+      intro h; rw [h, F.thenNot] at hl; cases hl
+    have helse : (kv'.1 == skey "else") = false := by
+      rw [beq_eq_false_iff_ne]
+      intro h; rw [h, F.elseNot] at hl; cases hl
+    rw [hne, hthen, helse]
+    simp
+
+theorem union_step (env : Env) (impl : FmtImpl) {cfg : Cfg} (F : KwFacts cfg) {rec : Rec}
+    (hrec : ∀ i s, Spec.noRef s = true → StInd (rec i s))
+    (i : Json) (kvs : List (Str × Json)) (hwf : Spec.keysDistinct kvs = true)
+    (hnr : Spec.noRef (.obj kvs) = true) (st : RState)
+    (hdone : (evalStep env impl cfg rec i (.obj kvs) none st).stop = .done) :
+    (evalStep env impl cfg rec i (.obj kvs) none st).errs.map eraseSch
+      = kvs.flatMap fun kv =>
+          ((evalStep env impl cfg rec i (.obj (aloneKvs cfg kvs kv.1)) none st).errs.filter
+            (attrTo kv.1)).map eraseSch := by
+  have hsub : ∀ k, ∀ p ∈ aloneKvs cfg kvs k, p ∈ kvs := fun k p hp => (List.mem_filter.mp hp).1
+  have hnrA : ∀ k, Spec.noRef (.obj (aloneKvs cfg kvs k)) = true := fun k => noRef_filter _ hnr
+  cases hsc : scopeOf cfg kvs with
+  | error cls =>
+    rw [evalStep_obj_err env impl cfg rec i hsc] at hdone
+    cases hdone
+  | ok scope =>
+    rw [evalStep_obj_run env impl cfg rec i hnr hsc] at hdone ⊢
+    obtain ⟨st1, hst1⟩ := withScopeOpt_done env scope st hdone
+    have hWd : (seqG (runKeyword env impl cfg rec i (.obj kvs)) kvs none st1).stop = .done := by
+      rw [← (hst1 _).2]; exact hdone
+    rw [(hst1 _).1]
+    have hWst : ∀ kv ∈ kvs, (runKeyword env impl cfg rec i (.obj kvs) kv none st1).st = st1 :=
+      fun kv hkv => (N_runKeyword (stIndClosed env) hrec impl F.refOnly i hnr hkv none st1 st1 rfl).2.2
+    have hWdone := seqG_none_done_inv _ st1 kvs hWst hWd
+    rw [seqG_none_all_done _ st1 kvs (fun kv hkv => ⟨hWdone kv hkv, hWst kv hkv⟩)]
+    dsimp only
+    rw [List.map_flatMap]
+    apply flatMap_congr_mem
+    intro kv hkv
+    rw [evalStep_obj_run env impl cfg rec i (hnrA kv.1) ((scopeOf_alone cfg kvs kv.1).trans hsc),
+      (hst1 _).1]
+    have hsim : ∀ kv' : Str × Json,
+        OutSim (runKeyword env impl cfg rec i (.obj (aloneKvs cfg kvs kv.1)) kv' none st1)
+               (runKeyword env impl cfg rec i (.obj kvs) kv' none st1) :=
+      fun kv' => runKeyword_sim env impl cfg rec i _ _ kv' (sameSiblings_alone cfg kvs kv.1) none st1
+    rw [seqG_none_all_done _ st1 _ (fun kv' h =>
+      ⟨(hsim kv').2.1.trans (hWdone kv' (hsub _ _ h)), (hsim kv').2.2.trans (hWst kv' (hsub _ _ h))⟩)]
+    dsimp only
+    rw [List.filter_flatMap, List.map_flatMap,
+      flatMap_congr_mem (g := fun kv' =>
+        ((runKeyword env impl cfg rec i (.obj kvs) kv' none st1).errs.filter (attrTo kv.1)).map eraseSch)
+        (fun kv' _ => filter_attr_eraseSch (hsim kv').1 kv.1),
+      flatMap_filter_of_nil (p := fun p : Str × Json => p.1 == kv.1)]
+    · have hone : (aloneKvs cfg kvs kv.1).filter (fun p => p.1 == kv.1) = [kv] := by
+        unfold aloneKvs
+        rw [List.filter_filter]
+        have : (fun a : Str × Json => (a.1 == kv.1) && (a.1 == kv.1 || Spec.consulted.contains a.1 || a.1 == cfg.idKey))
+            = fun a => a.1 == kv.1 := by
+          funext a
+          cases a.1 == kv.1 <;> rfl
+        rw [this]
+        exact filter_key_eq hwf hkv
+      rw [hone, List.flatMap_cons, List.flatMap_nil, List.append_nil,
+        List.filter_eq_self.mpr (runKeyword_attr env impl F.ifOnly rec i _ kv (noRef_obj_key hnr hkv) none st1)]
+    · intro kv' hkv' hne
+      have hkeep := (List.mem_filter.mp hkv').2
+      rw [sibling_not_attr env impl F rec i _ kv.1 kv' hne ?_ (noRef_obj_key hnr (hsub _ _ hkv')) none st1]
+      · rfl
+      · simp only [hne, Bool.false_or, Bool.or_eq_true, beq_iff_eq] at hkeep
+        exact hkeep
+
 end JS
